@@ -228,7 +228,9 @@ class Scheduler:
         self.marks.setdefault(name, self.steps)
 
     # ------------------------------------------------------------------ line-level preemption
-    def enable_line_tracing(self):
+    def enable_line_tracing(self, focus=None):
+        """count (and optionally preempt at) executed source lines of the tree under test;
+        focus: optional set of function names - only lines inside those functions are counted"""
         src = os.path.join(tree.SRC, "execnet") + os.sep
         sched = self
 
@@ -242,7 +244,7 @@ class Scheduler:
             return local
 
         def tracer(frame, event, arg):
-            if frame.f_code.co_filename.startswith(src):
+            if frame.f_code.co_filename.startswith(src) and (focus is None or frame.f_code.co_name in focus):
                 return local
             return None
 
@@ -273,16 +275,19 @@ class Scheduler:
         for t in self.threads:
             if t.state == RUNNABLE:
                 cands.append(t)
-            elif t.state == BLOCKED and t.pred():
+            elif t.state == BLOCKED and (t.timed_out or t.pred()):
                 cands.append(t)
         if not cands:
             timed = [t for t in self.threads if t.state == BLOCKED and t.deadline is not None]
             if timed:
-                t = min(timed, key=lambda t: t.deadline)
-                self.now = max(self.now, t.deadline)
-                t.timed_out = True
-                self.timeouts_fired += 1
-                cands = [t]
+                # virtual time advances to the earliest deadline; every timer that expires at that instant fires
+                # (independent timers: all those threads become runnable and the schedule orders them)
+                self.now = max(self.now, min(t.deadline for t in timed))
+                for t in timed:
+                    if t.deadline <= self.now:
+                        t.timed_out = True
+                        self.timeouts_fired += 1
+                        cands.append(t)
             else:
                 pending = [t for t in self.threads if t.state == BLOCKED and t.must_finish]
                 if pending:
